@@ -110,6 +110,9 @@ class LifeSystem:
         if hang is not None:
             self.poll_hanging = True
             hang.wait(60)           # the service does not answer (the connection hangs)
+        if getattr(self, 'poll_interrupt', False):
+            self.poll_interrupt = False
+            raise KeyboardInterrupt()     # the user gives up on a service that does not answer: start() fails with it
         if self.poll_fail:
             raise fakes.FakeRpcError('unavailable')
         cur = getattr(self, 'late_hash', 'h1')      # (see start(): a new configuration with every second life)
